@@ -282,13 +282,45 @@ def _enum_login_preemption_sweep():
                 yield dict(base, preempt=[[i, sel]])
 
 
+def _enum_first_send_line_sweep():
+    """the first two sends through a freshly logged-in stack, from two threads, with one preemption at every line and call of the
+    traced layer files: whatever a layer sets up on first use must be safe to set up from two threads at once"""
+    for variant in ("core", "bare"):
+        base = {"sub": "senders", "variant": variant, "tasks": [[["iq", 1]], [["receipt", 1]]], "ping": False, "start_round": 2, "choices": [],
+                "trace_lines": True}
+        probe = run_case(dict(base))
+        steps = (probe.info or {}).get("steps", 700)
+        for i in range(steps + 1):
+            for sel in (0, 1, 2):
+                yield dict(base, preempt=[[i, sel]])
+
+
+def first_send_strategy():
+    """the first sends through a freshly logged-in stack from 2-3 threads under a free line-level schedule (any ready thread may run
+    at every line and call of the traced layer files), or with two to three preemptions"""
+    op = st.tuples(st.sampled_from(["iq", "receipt", "presence"]), st.sampled_from([1, 1, 10])).map(list)
+
+    @st.composite
+    def build(draw):
+        case = {"sub": "senders", "variant": draw(st.sampled_from(["core", "bare"])), "tasks": draw(st.lists(st.lists(op, min_size=1, max_size=2), min_size=2, max_size=3)),
+                "ping": False, "start_round": 2, "trace_lines": True, "choices": []}
+        if draw(st.booleans()):
+            case["choices"] = draw(st.lists(st.integers(0, 5), min_size=900, max_size=900))
+        else:
+            case["preempt"] = draw(st.lists(st.tuples(st.integers(380, 760), st.integers(0, 3)).map(list), min_size=2, max_size=3))
+        return case
+    return build()
+
+
 def plan(tier):
     quick = tier == "quick"
     return {
         "shards": 16,
-        "enumerations": [("basic", _enum_basic), ("login_preemption_sweep", _enum_login_preemption_sweep)],
-        "exhaustive": ["login_preemption_sweep"],
-        "strategies": [("schedules", case_strategy(tier), 150 if quick else 10000)],
+        "enumerations": [("basic", _enum_basic), ("login_preemption_sweep", _enum_login_preemption_sweep),
+                         ("first_send_line_sweep", _enum_first_send_line_sweep)],
+        "exhaustive": ["login_preemption_sweep", "first_send_line_sweep"],
+        "strategies": [("schedules", case_strategy(tier), 150 if quick else 10000),
+                       ("first_send_line_schedules", first_send_strategy(), 60 if quick else 3000)],
         "shrink": "ddmin",
         "budget_s": 150 if quick else 1800,
     }
